@@ -130,8 +130,17 @@ def run(ctx):
                     if not np.allclose(s, ref, rtol=2e-3):
                         viol("SharpK/defining-integral", f"SharpK.sigma on {sname} differs from the integral of P up to 1/R by {float(np.max(np.abs(s / ref - 1))):.3g}")
                     perm = np.array(r.sample(range(len(radii)), len(radii)))
-                    if not np.allclose(f.sigma(radii[perm]), s[perm], rtol=1e-12):
-                        viol("SharpK/row-local/position-dependent-resolution", f"SharpK.sigma at a radius depends on the position of that radius in the input array (max rel dev {float(np.max(np.abs(f.sigma(radii[perm]) / s[perm] - 1))):.3g} on {sname})")
+                    sp_ = f.sigma(radii[perm])
+                    if not np.allclose(sp_, s[perm], rtol=1e-12):
+                        dev = float(np.max(np.abs(sp_ / s[perm] - 1)))
+                        # the recorded finding is a resolution effect (1e-7 .. 1e-4); anything larger is a different failure
+                        key = "SharpK/row-local/position-dependent-resolution" if dev < 2e-3 else "SharpK/row-local/order-changes-values"
+                        viol(key, f"SharpK.sigma at a radius depends on the position of that radius in the input array (max rel dev {dev:.3g} on {sname}, order {perm.tolist()})",
+                             {"radii": radii[perm].tolist(), "spectrum": sname})
+                    sd_ = f.sigma(radii[::-1].copy())
+                    if not np.allclose(sd_, s[::-1], rtol=2e-3):
+                        viol("SharpK/row-local/order-changes-values", f"SharpK.sigma on a descending radius array is not the ascending result reversed (max rel dev {float(np.max(np.abs(sd_ / s[::-1] - 1))):.3g} on {sname})",
+                             {"radii": radii[::-1].tolist(), "spectrum": sname})
                     g = cls(k, 3.0 * P, **cpar)
                     if not np.allclose(g.sigma(radii), np.sqrt(3.0) * s, rtol=1e-9):
                         viol("SharpK/scaling-or-shared-table", "a second SharpK instance built with 3 x P does not return sqrt(3) x sigma (scaling fails or instances share a table)")
